@@ -31,8 +31,9 @@ RULE = ("Hypothesis histories (JSON specs): 2-4 registered objects (7 stored typ
         "(SetAttribute 2.0; Modify/Delete 1.x with index class absent|0|in-range|==len|>len|"
         "negative; Modify 2.0 with/without current attribute; Delete 2.0 by current attribute, by "
         "reference, neither) over Name / Object Group / Application Specific Information / "
-        "Sensitive with values equal to or different from current instances, and over every "
-        "other attribute name of the KMIP table plus a custom and an unknown name; Activate, "
+        "Sensitive with values equal to or different from current instances, over the read-only set "
+        "with sample values, and over every other attribute name of the KMIP table plus a custom "
+        "and an unknown name; as owner or (10%) as a stranger; Activate, "
         "Revoke, Get, GetAttributes, engine restart.  Symbolic indices/values are resolved against "
         "the observed state so every index class is really reached.  non-trivial history = has a "
         "step that SUCCEEDED on a multivalued attribute holding >=2 instances, or after an earlier "
@@ -924,7 +925,8 @@ def worker(n, seed, max_steps):
 def run(ctx):
     nh = ctx.n(400, 6400)
     max_steps = ctx.n(25, 40)
-    F.rsa_pair()                    # generated once in the parent, inherited by the forks
+    F.rsa_pair()                    # key material generated once in the parent, inherited by the forks
+    F.obj_spec("Certificate")
     jobs = [(nh // NSHARDS, core.derive_seed(ctx.seed, "c15", i), max_steps) for i in range(NSHARDS)]
     dicts = core.run_sharded("vlib.props.c15", "worker", jobs)
     col = core.merged(PID, dicts)
